@@ -22,7 +22,9 @@ pub mod splice;
 // map v6 socket addr into v4 if possible
 pub fn try_map_v4_addr(addr: SocketAddr) -> SocketAddr {
     if let SocketAddr::V6(v6) = addr {
-        if let Some(v4a) = v6.ip().to_ipv4() {
+        // only ::ffff:a.b.c.d is an IPv4 peer seen through a dual-stack socket; to_ipv4() would also
+        // turn ::1 and the rest of ::/96 into IPv4 addresses
+        if let Some(v4a) = v6.ip().to_ipv4_mapped() {
             SocketAddr::V4(SocketAddrV4::new(v4a, v6.port()))
         } else {
             addr
